@@ -11,7 +11,7 @@ QUICK_CASES = 700  # generator items in the quick tier (fixed amount of work; BU
 FLOOR = {"quick": 200, "thorough": 1500}
 TIMEOUT = 120
 HASHSEEDS = {"quick": [0, 1, 2, 3], "thorough": list(range(16))}
-REQUIRED_OBS = ["deactivations", "occurrence_phases", "runs_observed", "residue_snapshots", "startup_runs", "shutdown_runs", "closure_instances", "redefined_at_load"]
+REQUIRED_OBS = ["deactivations", "occurrence_phases", "runs_observed", "residue_snapshots", "startup_runs", "shutdown_runs", "closure_instances", "redefined_at_load", "deleted_while_starting", "start_suspension_injected"]
 RULE = (
     "random lifetime histories over two script files: module-level functions and factory-made closures (kept in a list / dict: append, pop, "
     "clear, overwrite, del) carrying any mix of @state_trigger (single name, or value + .old + attribute of one entity plus a second entity), "
@@ -72,11 +72,22 @@ class Model:
             inst["shadow"] = {"gen": self.gen, "name": name, "trigs": sorted(r.sample(["state", "event", "time", "service"], r.randint(1, 3))), "extras": [], "where": where}
         return inst
 
+    def add(self, fdict, name, f):
+        """Create the instance `name` of file f; sometimes with a companion that deletes it at start-up."""
+        inst = fdict[name] = self.new_inst(name, f)
+        if self.rng.random() < 0.15:
+            inst["victim"] = True
+            inst["extras"] = []
+            inst.pop("shadow", None)
+            self.gen += 1
+            fdict[name + "_k"] = {"gen": self.gen, "name": name + "_k", "trigs": ["time"], "extras": ["startup"], "where": f, "kills": name}
+        return inst
+
     def live(self):
         out = []
         for f, insts in self.files.items():
             if self.present[f]:
-                out += list(insts.values())
+                out += [i for i in insts.values() if not i.get("victim")]
         out += self.closures["list"] + list(self.closures["dict"].values())
         return out
 
@@ -106,8 +117,13 @@ def render_inst(inst, indent="", name=None):
         out.append(f"{indent}@time_trigger({args})")
     if "service" in t:
         out.append(f"{indent}@service('pyscript.svc_{inst['name']}')")
+    # decorators are started top to bottom: any order must behave alike
+    random.Random(inst["gen"]).shuffle(out)
     out.append(f"{indent}def {name}(**kw):")
     out.append(f"{indent}    vf.rec('run', fn={inst['name']!r}, gen={inst['gen']}, tt=kw.get('trigger_type'), ttime=str(kw.get('trigger_time')))")
+    if inst.get("kills"):
+        # deletes its victim as soon as this file's triggers are started (i.e. while the victim may still be starting)
+        out += [f"{indent}    global {inst['kills']}", f"{indent}    try:", f"{indent}        del {inst['kills']}", f"{indent}    except NameError:", f"{indent}        pass"]
     out.append("")
     return out
 
@@ -170,7 +186,7 @@ def gen_history(rng):
     for f in ("a.py", "b.py"):
         for i in range(rng.randint(1, 3)):
             name = f"{f[0]}f{i}"
-            m.files[f][name] = m.new_inst(name, f)
+            m.add(m.files[f], name, f)
     steps = []
     n = rng.randint(4, 10)
     for _ in range(n):
@@ -242,6 +258,10 @@ def run_case(case):
     sigs = []
 
     def note_new(inst):
+        if inst.get("victim"):
+            m.dead[inst["gen"]] = inst
+            obs["deleted_while_starting"] += 1
+            return
         if inst.get("shadow"):
             m.dead[inst["shadow"]["gen"]] = inst["shadow"]
             obs["redefined_at_load"] += 1
@@ -318,8 +338,9 @@ def run_case(case):
 
     async def main(w):
         await w.quiesce()
-        for inst in m.live():
-            note_new(inst)
+        for f_ in m.files:
+            for inst in m.files[f_].values():
+                note_new(inst)
         await occ_phase(w, "initial load")
         check_tables(w, "initial load")
         for si, st in enumerate(steps):
@@ -331,12 +352,12 @@ def run_case(case):
                 old = m.files[f]
                 new = {}
                 for name, inst in old.items():
-                    if st["drop"] and len(old) > 1 and name == sorted(old)[-1]:
+                    if inst.get("kills") or (st["drop"] and len(old) > 1 and name == sorted(old)[-1]):
                         continue
-                    new[name] = m.new_inst(name, f)
+                    m.add(new, name, f)
                 if st["add"]:
                     name = f"{f[0]}f{len(old) + rng.randint(3, 9)}"
-                    new[name] = m.new_inst(name, f)
+                    m.add(new, name, f)
                 if m.present[f]:
                     for inst in old.values():
                         note_dead(inst)
@@ -418,7 +439,26 @@ def run_case(case):
                 await occ_phase(w, label)
                 check_tables(w, label)
 
-    w, _ = run_world(main, files={"a.py": m.render_file("a.py"), "b.py": m.render_file("b.py")}, legacy=legacy, tick=rng.choice([1e-6, 5e-6, 5e-5]), pre_setup=pre, keep=True)
+    # schedule perturbation at an existing suspension point: ServiceDecorator.start() awaits State.get_service_params(), which
+    # really suspends in a live system (descriptions are loaded in the executor) but is answered from a cache here
+    import asyncio
+
+    from custom_components.pyscript.state import State
+
+    orig_gsp = State.__dict__["get_service_params"]
+    nyield = rng.choice([0, 0, 1, 2, 3])
+
+    async def slow_gsp(cls):
+        for _ in range(nyield):
+            await asyncio.sleep(0)
+        return await orig_gsp.__func__(cls)
+
+    State.get_service_params = classmethod(slow_gsp)
+    obs["start_suspension_injected"] = int(nyield > 0)
+    try:
+        w, _ = run_world(main, files={"a.py": m.render_file("a.py"), "b.py": m.render_file("b.py")}, legacy=legacy, tick=rng.choice([1e-6, 5e-6, 5e-5]), pre_setup=pre, keep=True)
+    finally:
+        State.get_service_params = orig_gsp
     # ---- generation monitor
     runs_all = [r for r in w.rec if r["tag"] == "run"]
     obs["runs_observed"] = len(runs_all)
